@@ -1,6 +1,6 @@
 (* Corollaries of compile_wall used by the property files. *)
 From Coq Require Import String List Ascii ZArith Bool Lia.
-From QRB Require Import Base.Bytes Model.W Model.WInd Model.WModes Model.Values Model.Compile Model.Wall Model.Wfe.
+From QRB Require Import Base.Bytes Model.W Model.WInd Model.WModes Model.WValid Model.Values Model.Compile Model.Wall Model.Wfe.
 Import ListNotations.
 
 Section Facts.
@@ -17,6 +17,27 @@ Section Facts.
   Theorem compile_no_panic (e : exp V) : wfe e = true -> panics V (compile_top e) = false.
   Proof.
     intro H. apply Wall_no_panic. apply compile_top_wall; try discriminate. now right.
+  Qed.
+
+  Definition plain_node (x : W V) : Prop :=
+    match x with
+    | WErr k | WErrV k => ekind_eqb k EkIdent = false /\ ekind_eqb k EkType = false
+    | _ => True
+    end.
+
+  Lemma Wall_plain_errs w : Wall plain_node w -> plain_errs V w = true.
+  Proof.
+    induction w as [t|t|t|t|v|n|t|t|k|k|pk|l IH|] using W_ind'; intro K; try reflexivity.
+    - inversion K as [|? _ Hq]; subst. cbn in Hq. destruct Hq as [H1 H2]. cbn. now rewrite H1, H2.
+    - inversion K as [|? _ Hq]; subst. cbn in Hq. destruct Hq as [H1 H2]. cbn. now rewrite H1, H2.
+    - apply Wall_seq_inv in K. rewrite plain_errs_seq. induction IH as [|x r Hx _ IHr]; [reflexivity|].
+      inversion K; subst. cbn [forallb]. rewrite Hx by assumption. now apply IHr.
+  Qed.
+
+  (* the sentinels for names and types are only ever added by the two validating primitives *)
+  Theorem compile_plain_errs (e : exp V) : plain_errs V (compile_top e) = true.
+  Proof.
+    apply Wall_plain_errs. apply compile_top_wall; cbn; try tauto; try (split; reflexivity).
   Qed.
 
   Theorem compile_no_panic_sub (e : exp V) : wfe e = true -> panics V (compile e) = false.
